@@ -38,19 +38,13 @@ Proof.
 Qed.
 
 Lemma reject0 k cls p s :
-  iso k (iso_arg k s) = None -> strp p s = None -> dash_time k p = false ->
-  load0 k cls p s = ParseErr [p].
-Proof. unfold dash_time, PatModel.load0. now intros -> -> ->. Qed.
-
-Lemma reject0_dash k cls p s :
-  iso k (iso_arg k s) = None -> strp p s = None -> dash_time k p = true ->
-  load0 k cls p s = match cls with None => RetNone | Some _ => AttrErr end.
-Proof. unfold dash_time, PatModel.load0. now intros -> -> ->. Qed.
+  iso k (iso_arg k s) = None -> strp p s = None -> load0 k cls p s = ParseErr [p].
+Proof. unfold PatModel.load0. intros -> ->. now destruct (is_time k && has_dash_plus p). Qed.
 
 Lemma load0_shape k cls p s v : load0 k cls p s = Loaded v -> v_kind v = k /\ v_cls v = cls.
 Proof.
   unfold PatModel.load0.
-  destruct (is_time k && has_dash_plus p), (strp p s), (iso k (iso_arg k s)); try destruct cls;
+  destruct (is_time k && has_dash_plus p), (strp p s), (iso k (iso_arg k s));
     intro H; inversion H; auto.
 Qed.
 
@@ -142,18 +136,18 @@ Proof. split; reflexivity. Qed.
 
 (* ---- containers --------------------------------------------------------------------------- *)
 Lemma elems_all (f : pstr -> outcome) (g : pstr -> val) l :
-  (forall s, In s l -> f s = Loaded (g s)) -> load_elems f l = inl (map (fun s => Some (g s)) l).
+  (forall s, In s l -> f s = Loaded (g s)) -> load_elems f l = inl (map g l).
 Proof.
   induction l as [|s r IH]; cbn; auto. intro H. rewrite (H s) by now left.
   rewrite IH; [reflexivity|]. intros; apply H; now right.
 Qed.
 
-Lemma elems_first_error (f : pstr -> outcome) l1 s l2 e :
-  (forall x, In x l1 -> exists v, f x = Loaded v) -> f s = e -> (forall v, e <> Loaded v) -> e <> RetNone ->
-  load_elems f (l1 ++ s :: l2) = inr e.
+Lemma elems_first_error (f : pstr -> outcome) l1 s l2 ps :
+  (forall x, In x l1 -> exists v, f x = Loaded v) -> f s = ParseErr ps ->
+  load_elems f (l1 ++ s :: l2) = inr (ParseErr ps).
 Proof.
-  intros H Hs Hne Hnn. induction l1 as [|x r IH]; cbn.
-  - rewrite Hs. destruct e as [v|ps| |]; [exfalso; now apply (Hne v)|reflexivity|contradiction|reflexivity].
+  intros H Hs. induction l1 as [|x r IH]; cbn.
+  - now rewrite Hs.
   - destruct (H x (or_introl eq_refl)) as [v Hv]. rewrite Hv.
     rewrite IH; [reflexivity|]. intros; apply H; now right.
 Qed.
